@@ -6,13 +6,13 @@
      raw0                 = line.raw[0].Orig()
      multiline            = line.IsMultiline() = len(line.raw) > 1
 
-   The differences to Model/MkLineSplit.v (one raw line, raw0 = text), repaired code:
-     - getRawValueAlign walks the text of the logical line (the first physical line without its
-       continuation backslash is a prefix of it);
-     - right after it, for a multi-line line,
+   The differences to Model/MkLineSplit.v (one raw line, raw0 = text), code as of /repo 96b19dc:
+     - right after NewMkOperator, for a multi-line line,
+         upToOp := p.getRawValueAlign(text, condStr(commented, "#", "")+lexer.Since(mainStart))
          firstLine := rtrimHspace(strings.TrimSuffix(line.raw[0].Orig(), "\\"))
-         if len(rtrimHspace(valueAlign)) > len(firstLine) { return false, nil }
-       i.e. the operator must end inside the first raw line.
+         if len(upToOp) > len(firstLine) { return false, nil }
+       i.e. the operator must end inside the first raw line;
+     - getRawValueAlign for valueAlign walks line.raw[0].Orig(), not the logical text.
    Definitions only. *)
 From PV Require Import Lib.Bytes Gen.MkByteSets Model.MkLexPrim Model.MkLexer Model.MkTokensLexer
   Model.MkLineSplit.
@@ -52,6 +52,15 @@ Definition match_varassign_tail_ml (multiline : bool) (raw0 text : str) (comment
       (* NewMkOperator panics on anything else *)
       if negb (existsb (str_eqb op0) [[61]; [33; 61]; [58; 61]; [43; 61]; [63; 61]]) then Panic
       else
+        (* the operator must end in the first physical line *)
+        rejected <-
+          (if multiline then
+             up_to_op <- get_raw_value_align text
+                           ((if commented then [35] else []) ++ tl_since main_start lexer5) ;;
+             Ok (length (first_line_of raw0) <? length up_to_op)%nat
+           else Ok false) ;;
+        if (rejected : bool) then Ok None
+        else
         let '(vname', op) :=
           if has_suffix [43] vname && str_eqb op0 [61] && negb (nonempty space_after_varname)
           then (firstn (length vname - 1) vname, [43; 61])
@@ -59,10 +68,7 @@ Definition match_varassign_tail_ml (multiline : bool) (raw0 text : str) (comment
         let lexer6 := tl_lift (fun s => snd (next_bytes is_hspace s)) lexer5 in
         let value := trim_hspace (tl_rest lexer6) in
         let parsed_value_align := (if commented then [35] else []) ++ tl_since main_start lexer6 in
-        align <- get_raw_value_align text parsed_value_align ;;
-        (* the operator is in a continuation line; not worth the trouble *)
-        if multiline && (length (first_line_of raw0) <? length (rtrim_hspace align))%nat then Ok None
-        else
+        align <- get_raw_value_align raw0 parsed_value_align ;;
         let '(align', sr') :=
           match value with
           | [] => (align ++ sr_space_before_comment sr,
